@@ -12,7 +12,7 @@ from prosemirror.transform import Transform
 
 ID = "C11"
 CORR_MODULE = "Corr.C11"
-LEVEL = "exploration"
+LEVEL = "proof"
 SHARD = 80
 
 REPLACE_OPS = ["replace", "replace_with", "insert", "delete", "replace_range", "replace_range_with", "delete_range"]
